@@ -10,9 +10,12 @@ pid, n = sys.argv[1], sys.argv[2]
 mods = "."
 if "--modules" in sys.argv:
     mods = sys.argv[sys.argv.index("--modules") + 1]
-src = f"/tmp/seed/{pid}/out/{n}"
+root = os.environ.get("SEED_ROOT", "/tmp/seed")
+off = int(os.environ.get("SEED_OFFSET", "0"))  # round 2: SEED_ROOT=/tmp/seed2 SEED_OFFSET=2
+src = f"{root}/{pid}/out/{n}"
+dn = int(n) + off
 meta = json.load(open(f"{src}/meta.json"))
-wt = f"/tmp/confirm/{pid}-{n}"
+wt = f"/tmp/confirm/{pid}-{int(n)+int(os.environ.get('SEED_OFFSET','0'))}"
 os.makedirs("/tmp/confirm", exist_ok=True)
 subprocess.run(["git", "-C", "/repo", "worktree", "remove", "--force", wt], capture_output=True)
 subprocess.run(["git", "-C", "/repo", "worktree", "add", "-q", "--detach", wt, "HEAD"], check=True)
@@ -55,9 +58,9 @@ try:
     log["demo_with"] = (rc_with, out_with[-600:])
     log["demo_without"] = (rc_without, out_without[-300:])
     good = ok_suite and rc_with != 0 and rc_without == 0
-    print(f"{pid}-{n}: suite_ok={ok_suite} demo_fails_with={rc_with != 0} demo_passes_without={rc_without == 0} => {'CONFIRMED' if good else 'REJECTED'}")
+    print(f"{pid}-{dn}: suite_ok={ok_suite} demo_fails_with={rc_with != 0} demo_passes_without={rc_without == 0} => {'CONFIRMED' if good else 'REJECTED'}")
     if good:
-        dst = f"/verif/seeded/{pid}-{n}"
+        dst = f"/verif/seeded/{pid}-{dn}"
         os.makedirs(dst, exist_ok=True)
         shutil.copy(f"{src}/patch.diff", dst)
         shutil.copy(f"{src}/demo_test.go", dst)
@@ -66,6 +69,6 @@ try:
                              "demo_fail_excerpt": out_with[-400:]}
         json.dump(meta, open(f"{dst}/meta.json", "w"), indent=1)
     else:
-        json.dump(log, open(f"/tmp/confirm/{pid}-{n}.log.json", "w"), indent=1, default=str)
+        json.dump(log, open(f"/tmp/confirm/{pid}-{dn}.log.json", "w"), indent=1, default=str)
 finally:
     subprocess.run(["git", "-C", "/repo", "worktree", "remove", "--force", wt], capture_output=True)
